@@ -218,3 +218,81 @@ func VerifH_C02_archive() {
 		verifrt.Assert(seed.GetStatus() == models.ItemFailed, "C01 the archiver leaves an item archived or failed")
 	}
 }
+
+// VerifH_C02_archive_assets: the real archive() on a page with two assets fetched concurrently
+// (--max-concurrent-assets 2), the WARC writer delivering its feedback from its own goroutine: with synchronous
+// writing archive() returns only when the record of EVERY archived asset has been written (each fetch waits for the
+// feedback of its own request), and the fetches share no unsynchronised state (race detector).
+func VerifH_C02_archive_assets() {
+	_ = stats.Init()
+	async := verifrt.Choice("async-warc", 2) == 1
+	cfg := &config.Config{MaxConcurrentAssets: 2, MaxRetry: 0, WARCWriteAsync: async, HTTPReadDeadline: 10, MaxHops: 1}
+	config.VerifSet(cfg)
+	domainscrawl.Reset()
+	hook := discard.NewBuilder().AddDefaultHooks().Build()
+	globalArchiver = &archiver{Client: &warc.CustomHTTPClient{DiscardHook: hook}}
+	globalBucketManager = nil
+	script := []verifmodel.DoOutcome{{Status: 200, Chunks: []int{8}, Prefix: "\x00\x01bin"}, {Status: 200, Chunks: []int{8}, Prefix: "\x00\x01bin"}}
+	verifmodel.DoScript = script
+	verifmodel.DoCalls, verifmodel.DoBodies = 0, nil
+	verifmodel.DelayedWrite = true
+	defer func() { verifmodel.DelayedWrite = false }()
+	base := "http://h.example"
+	if !verifrt.Symbolic() {
+		d, err := os.MkdirTemp("", "verif-c02-")
+		if err != nil {
+			panic(err)
+		}
+		defer os.RemoveAll(d)
+		cfg.JobPath, cfg.WARCTempDir, cfg.WARCPrefix, cfg.WARCPoolSize, cfg.WARCSize = d, d+"/tmp", "VERIF", 1, 100
+		ts := httptest.NewServer(http.HandlerFunc(func(w http.ResponseWriter, r *http.Request) {
+			w.Header().Set("Content-Type", "application/octet-stream")
+			w.WriteHeader(200)
+			w.Write([]byte("\x00\x01binary"))
+		}))
+		defer ts.Close()
+		base = ts.URL
+		log.Start()
+		logger = log.NewFieldedLogger(&log.Fields{"component": "archiver"})
+		startWARCWriter()
+		defer globalArchiver.Client.Close()
+	}
+	seed := models.NewItem("seed-1", &models.URL{Raw: base + "/"}, "")
+	_ = seed.GetURL().Parse()
+	seed.SetStatus(models.ItemGotChildren)
+	var kids []*models.Item
+	for i := 0; i < 2; i++ {
+		raw := base + "/a" + string(rune('0'+i)) + ".bin"
+		k := models.NewItem("asset-"+string(rune('0'+i)), &models.URL{Raw: raw}, "")
+		_ = k.GetURL().Parse()
+		req, _ := http.NewRequest("GET", raw, nil)
+		k.GetURL().SetRequest(req)
+		if err := seed.AddChild(k, models.ItemGotChildren); err != nil {
+			panic(err)
+		}
+		k.SetStatus(models.ItemPreProcessed)
+		kids = append(kids, k)
+	}
+
+	archive("w", seed)
+
+	for _, k := range kids {
+		verifrt.Assert(k.GetStatus() == models.ItemArchived, "C02 an asset answered 200 is archived")
+		if verifrt.Symbolic() && !async {
+			verifrt.Cover("sync-write-awaited")
+			for _, b := range verifmodel.DoBodies {
+				if b.URL == k.GetURL().GetRequest().URL.String() {
+					verifrt.Assert(b.Written.Load(), "C02 with synchronous writing an asset is archived only after the record of its own response was written")
+				}
+			}
+		}
+	}
+	if verifrt.Symbolic() {
+		verifrt.Assert(len(verifmodel.DoBodies) == 2, "C02 every asset is requested once")
+		for _, b := range verifmodel.DoBodies {
+			verifrt.Assert(b.Closed >= 1 && b.EOF, "C02 every response obtained is read to its end and closed")
+		}
+	}
+	verifrt.Quiesce()
+	verifrt.Cover("two-assets")
+}
